@@ -673,7 +673,12 @@ pub fn gen_module(rng: &mut Rng, opts: GenOpts) -> Module {
         let offset = if k > 0 && rng.chance(2, 3) {
             // overlap the previous segment
             let p = &data[k - 1];
-            p.offset + rng.range(0, p.bytes.len() as u64) as u32
+            if rng.coin() {
+                p.offset + rng.range(0, p.bytes.len() as u64) as u32
+            } else {
+                // the later segment starts below the earlier one (and usually reaches into it)
+                p.offset.saturating_sub(rng.range(0, 20) as u32)
+            }
         } else {
             rng.range(0, 300) as u32
         };
